@@ -1,5 +1,23 @@
 import UtilModel.Core.LTSHash
+import UtilModel.Promise.Props
 import UtilModel.Promise.Monitors
 open UtilModel
 #print axioms UtilModel.acceptsH_sound
+#print axioms UtilModel.accepted_satisfies
 #print axioms UtilModel.monitor_of_simulation
+#print axioms Promise.reachable_inv
+#print axioms Promise.set_once
+#print axioms Promise.await_result
+#print axioms Promise.container_await_result
+#print axioms Promise.await_enabled
+#print axioms Promise.await_blocks
+#print axioms Promise.container_enabled
+#print axioms Promise.sampled_is_current
+#print axioms Promise.container_follows_current
+#print axioms Promise.container_blocks
+#print axioms Promise.own_step_decreases
+#print axioms Promise.own_run_bounded
+#print axioms Promise.quiescent_no_internal
+#print axioms Promise.witnessD9_run
+#print axioms Promise.container_channel_clause_false
+#print axioms Promise.container_channel_clause_partial
